@@ -1,0 +1,53 @@
+//! Read-only introspection used by the external verification harness.
+//!
+//! Compiled only with `--cfg priority_queue_verif`; nothing here changes the
+//! behaviour of the queues.
+
+#[cfg(not(feature = "std"))]
+use std::vec::Vec;
+
+use crate::store::Store;
+use crate::{DoublePriorityQueue, PriorityQueue};
+
+/// A copy of the internal index tables of a queue.
+#[doc(hidden)]
+pub struct VerifSnapshot<'a, I, P> {
+    /// heap position -> slot index
+    pub heap: Vec<usize>,
+    /// slot index -> heap position
+    pub qp: Vec<usize>,
+    /// the size counter
+    pub size: usize,
+    /// number of entries in the map
+    pub map_len: usize,
+    /// for every heap position the stored element, if the slot index is valid
+    pub entries: Vec<Option<(&'a I, &'a P)>>,
+}
+
+fn snapshot<I, P, H>(store: &Store<I, P, H>) -> VerifSnapshot<'_, I, P> {
+    VerifSnapshot {
+        heap: store.heap.iter().map(|i| i.0).collect(),
+        qp: store.qp.iter().map(|p| p.0).collect(),
+        size: store.size,
+        map_len: store.map.len(),
+        entries: store
+            .heap
+            .iter()
+            .map(|i| store.map.get_index(i.0))
+            .collect(),
+    }
+}
+
+impl<I, P, H> PriorityQueue<I, P, H> {
+    #[doc(hidden)]
+    pub fn verif_snapshot(&self) -> VerifSnapshot<'_, I, P> {
+        snapshot(&self.store)
+    }
+}
+
+impl<I, P, H> DoublePriorityQueue<I, P, H> {
+    #[doc(hidden)]
+    pub fn verif_snapshot(&self) -> VerifSnapshot<'_, I, P> {
+        snapshot(&self.store)
+    }
+}
